@@ -398,7 +398,7 @@ impl Authorizer {
 
     fn authorize_inner(&mut self, limits: AuthorizerLimits) -> Result<usize, error::Token> {
         let start = Instant::now();
-        let time_limit = start + limits.max_time;
+        let time_limit = start.checked_add(limits.max_time);
 
         let mut errors = vec![];
         let mut policy_result: Option<Result<usize, usize>> = None;
@@ -453,7 +453,7 @@ impl Authorizer {
                 };
 
                 let now = Instant::now();
-                if now >= time_limit {
+                if time_limit.map_or(false, |limit| now >= limit) {
                     return Err(error::Token::RunLimit(error::RunLimit::Timeout));
                 }
 
@@ -512,7 +512,7 @@ impl Authorizer {
                     };
 
                     let now = Instant::now();
-                    if now >= time_limit {
+                    if time_limit.map_or(false, |limit| now >= limit) {
                         return Err(error::Token::RunLimit(error::RunLimit::Timeout));
                     }
 
@@ -550,7 +550,7 @@ impl Authorizer {
                 )?;
 
                 let now = Instant::now();
-                if now >= time_limit {
+                if time_limit.map_or(false, |limit| now >= limit) {
                     return Err(error::Token::RunLimit(error::RunLimit::Timeout));
                 }
 
@@ -605,7 +605,7 @@ impl Authorizer {
                         };
 
                         let now = Instant::now();
-                        if now >= time_limit {
+                        if time_limit.map_or(false, |limit| now >= limit) {
                             return Err(error::Token::RunLimit(error::RunLimit::Timeout));
                         }
 
